@@ -519,6 +519,9 @@ class XInterp(Interp):
             if isinstance(args[0], Special): return NAN if args[0].k == 'nan' else PINF
             return args[0]
         if n == 'cabs' and (isinstance(args[0], Special) or isinstance(args[1], Special)): return NAN
+        if n in ('__divdc3', '__muldc3'):
+            if any(isinstance(x, Special) for x in args[:4]): return (NAN, NAN)
+            if n == '__divdc3' and all(isinstance(x, Rat) and x.isconst() and x.value() == 0 for x in args[2:4]): return (NAN, NAN)   # x / (0+0i): non-finite
         if n in ('sqrt', 'llvm.sqrt.f64') and s.approx and isinstance(args[0], Rat) and args[0].isconst():
             v = args[0].value()
             r = Fraction(math.isqrt(v.numerator), 1) / Fraction(math.isqrt(v.denominator), 1) if v >= 0 else None
